@@ -56,3 +56,31 @@ func DispatchProfile(off map[string]bool) *Profile {
 	p.Weights["panic"] = 0
 	return p
 }
+
+// PointerProfile is the C11 domain: the flow profile with probe statements on pointer-like values and more weight on
+// statements that move references around.
+func PointerProfile(off map[string]bool) *Profile {
+	p := FlowProfile(off)
+	p.Name = "pointer"
+	p.Probes = true
+	p.Weights["probe"] = 24
+	p.Weights["source"] = 3
+	p.Weights["sink"] = 2
+	for _, k := range []string{"store", "decl", "assign", "call", "closure", "globalrw", "structcopy", "methodcall"} {
+		p.Weights[k] += 4
+	}
+	p.Weights["panic"] = 0
+	return p
+}
+
+// ConcurrentProfile is the C13 domain: the flow profile plus goroutines that share memory with their creator.
+func ConcurrentProfile(off map[string]bool) *Profile {
+	p := FlowProfile(off)
+	p.Name = "concurrent"
+	p.Go = true
+	p.Weights["go"] = 12
+	p.Weights["chan"] = 5
+	p.Weights["panic"] = 0
+	p.Weights["defer"] = 1
+	return p
+}
